@@ -246,6 +246,7 @@ mod ir_builder {
             rule operation() -> IrAstOperation
                 = op_asm()
                 / op_wide_unary()
+                / op_wide_modular_operation()
                 / op_wide_binary()
                 / op_wide_cmp()
                 / op_retd()
